@@ -10,5 +10,6 @@ import MakoModel.Props.C16
 #print axioms MakoModel.C16.lru_bound_quiescent
 #print axioms MakoModel.C16.memo_cells_stored_complete
 #print axioms MakoModel.C16.module_namespace_imports_through_lock
+#print axioms MakoModel.C16.lru_entry_published_with_value
 #print axioms MakoModel.C16.renders_independent
 #print axioms MakoModel.C16.uri_cache_reads_succeed
